@@ -135,7 +135,7 @@ func encode(sym string, content []int) (out []int, ok bool) {
 }
 
 func main() {
-	sym := flag.String("sym", "", "pdf | aztec | c128 | dm | qr")
+	sym := flag.String("sym", "", "pdf | aztec | c128 | dm | qr | pdfdims")
 	alpha := flag.String("alphabet", "", "comma separated byte / rune values")
 	maxlen := flag.Int("maxlen", 3, "maximal suffix length")
 	prefix := flag.String("prefix", "", "comma separated fixed prefix")
@@ -147,6 +147,18 @@ func main() {
 		os.Exit(2)
 	}
 	w := bufio.NewWriterSize(f, 1<<20)
+	if *sym == "pdfdims" { // every number of data codewords x every security level: the shape the real chooser returns
+		for m := 0; m <= 930; m++ {
+			for lv := 0; lv <= 8; lv++ {
+				k := 2 << uint(lv)
+				cols, rows := pdf417.VerifDimensions(m, k)
+				fmt.Fprintf(w, "{\"sym\":\"pdfdims\",\"m\":%d,\"lv\":%d,\"k\":%d,\"cols\":%d,\"rows\":%d}\n", m, lv, k, cols, rows)
+			}
+		}
+		w.Flush()
+		f.Close()
+		return
+	}
 	A := ints(*alpha)
 	pre := ints(*prefix)
 	cur := append([]int{}, pre...)
